@@ -37,7 +37,16 @@ func main() {
 	cfg.seed = s
 	// The library's answers may not depend on the process time zone: every run uses another one (the models know none).
 	zones := []*time.Location{time.FixedZone("+05:45", 5*3600+45*60), time.FixedZone("-09:30", -(9*3600 + 30*60)), time.UTC, time.FixedZone("+13:00", 13*3600)}
-	time.Local = zones[s%4]
+	// seeds 4..7 (mod 8) run under a real zone with daylight-saving rules: a value whose written offset is one the zone
+	// uses must keep it (time.Parse would hand back time.Local for it); seeds 0..3 keep the fixed offsets
+	for _, name := range []string{"America/St_Johns", "Pacific/Chatham", "Australia/Lord_Howe", "Europe/London"} {
+		if loc, err := time.LoadLocation(name); err == nil {
+			zones = append(zones, loc)
+		} else {
+			zones = append(zones, zones[len(zones)%4])
+		}
+	}
+	time.Local = zones[s%8]
 	processZone = time.Local.String()
 	f, ok := props[cfg.prop]
 	if !ok {
